@@ -1,5 +1,6 @@
 import Model.Base.Proto
 import Model.Num.Atof
+import Model.Num.Decimal
 import Model.Spec.NumText
 
 namespace Driver.C03
@@ -85,6 +86,18 @@ def handle (l : Line) : IO Unit := do
     if !trunc then
       let p : Spec.NumText.Parsed := { neg, hex := true, mant, exp }
       IO.println s!"spec {id} hx={specF p.eval}"
+  | "rint" =>
+    let ds := if l.getD "d" == "-" then [] else (l.bytes? "d").getD []
+    let dp := ((l.getD "dp").toInt?).getD 0
+    let trunc := l.getD "trunc" == "1"
+    let a : Dec := { d := ds, dp, trunc }
+    IO.println s!"obs {id} n={roundedInteger a} up={b01 (shouldRoundUp a a.dp)}"
+    -- spec: round-half-even of the exact value 0.d₁…dₙ · 10^dp
+    if !trunc && dp ≥ 0 && dp ≤ 19 && (ds.isEmpty || ds.getLast? != some 48) then
+      let v := Spec.NumText.valOf 10 ds
+      let k := dp.toNat
+      let r := if k ≥ ds.length then v * 10 ^ (k - ds.length) else F64.rne v (10 ^ (ds.length - k))
+      IO.println s!"spec {id} n={r}"
   | "table" =>
     let tab := (List.range pow10TableLen).map fun k => F64.toHex (float64pow10 k)
     IO.println s!"obs {id} n={pow10TableLen} tab={",".intercalate tab}"
